@@ -148,10 +148,10 @@ def eval_c02(g, h, cx, res, out):
             prev_hi = c[3]
             m = rec(c, False)
             if m: return m
-        if not is_root:
-            lv = leaves(w, [])
-            if lv and (triv[lv[0][4]] if lv[0][4] < len(triv) else False): return f'rule node {w[-1]} starts with a skipped token (index {lv[0][4]})'
-            if lv and (triv[lv[-1][4]] if lv[-1][4] < len(triv) else False): return f'rule node {w[-1]} ends with a skipped token (index {lv[-1][4]})'
+        if not is_root and w[4]:
+            # first / last DIRECT child must not be a skipped or Error token (an empty rule node there is fine)
+            for c, what in ((w[4][0], 'starts'), (w[4][-1], 'ends')):
+                if c[0] == 'T' and c[4] < len(triv) and triv[c[4]]: return f'rule node {w[-1]} {what} with a skipped token (index {c[4]})'
         return None
     m = rec(res.walk, True)
     if m: out.append(Violation('C02', 'span-or-trivia', g, res, m)); return
@@ -320,9 +320,9 @@ def native_holds(h, g, prop, entry, witness, o):
                 if prev is not None and c[2] < prev: return False
                 prev = c[3]
                 if not rec(c, False): return False
-            if not root:
-                lv = native_walk_leaves(w, [])
-                if lv and (lv[0][1] in skipset or lv[-1][1] in skipset): return False
+            if not root and w[4]:
+                for c in (w[4][0], w[4][-1]):
+                    if c[0] == 'T' and c[1] in skipset: return False
             return True
         if not rec(o['walk'], True): return False
         for e in o['log']:
